@@ -30,7 +30,7 @@ FEATURES = ['bus_desc', 'bus_asc', 'assign_alias', 'assign_chain', 'bus_concat_a
 
 def plan(tier, seed):
     q = tier == 'quick'
-    return [{'n': 45 if q else 900, 'nb': 60 if q else 1200, 'npair': 25 if q else 500} for _ in range(16)]
+    return [{'n': 100 if q else 3000, 'nb': 150 if q else 4000, 'npair': 60 if q else 1500} for _ in range(16)]
 
 
 def conclude(agg):
